@@ -123,10 +123,42 @@ func c03Step(t *rapid.T) kit.Argv {
 	}
 }
 
+// c03Probe: a structural operation followed at once by commands that walk the list backwards or
+// insert at its ends - stale back links and head/tail pointers only show then.
+func c03Probe(t *rapid.T) []kit.Argv {
+	k := pick(t, "pk", c03ListKeys...)
+	var out []kit.Argv
+	switch rapid.IntRange(0, 4).Draw(t, "structural") {
+	case 0:
+		out = append(out, kit.A("LTRIM", k, pick(t, "ts", "1", "2", "3", "-3", "-2"), pick(t, "te", "-1", "-2", "5", "100")))
+	case 1:
+		out = append(out, kit.A("LPOP", k, pick(t, "pc", "1", "2", "3")))
+	case 2:
+		out = append(out, kit.A("RPOP", k, pick(t, "pc", "1", "2", "3")))
+	case 3:
+		out = append(out, kit.A("LREM", k, pick(t, "rc", "1", "-1", "2", "0"), c03Elem(t)))
+	default:
+		out = append(out, kit.A("LMOVE", k, pick(t, "dst", c03ListKeys...), c03Side(t), c03Side(t)))
+	}
+	for i := rapid.IntRange(1, 3).Draw(t, "probes"); i > 0; i-- {
+		e := c03Elem(t)
+		out = append(out, kit.A(pick(t, "probe",
+			[]string{"LINSERT", k, "BEFORE", e, "ins"}, []string{"LINSERT", k, "AFTER", e, "ins"}, []string{"LREM", k, pick(t, "nc", "-1", "-2", "-9"), e},
+			[]string{"LPOS", k, e, "RANK", pick(t, "nr", "-1", "-2")}, []string{"LPOS", k, e, "RANK", "-1", "COUNT", "0"}, []string{"LINDEX", k, pick(t, "ni", "-1", "-2", "-5", "0")},
+			[]string{"LRANGE", k, pick(t, "ra", "-100", "-3", "0"), "-1"}, []string{"RPOP", k, "20"}, []string{"LPOP", k, "20"}, []string{"RPOPLPUSH", k, k}, []string{"LSET", k, "-1", "set"}, []string{"LSET", k, "0", "set"},
+		)...))
+	}
+	return out
+}
+
 func c03Gen(t *rapid.T) SeqCase {
 	steps := []kit.Argv{kit.A("SET", "str", "v"), kit.A("HSET", "h", "f", "v")}
 	n := rapid.IntRange(5, 45).Draw(t, "steps")
 	for i := 0; i < n; i++ {
+		if rapid.IntRange(0, 9).Draw(t, "probe") == 0 {
+			steps = append(steps, c03Probe(t)...)
+			continue
+		}
 		steps = append(steps, c03Step(t))
 	}
 	return SeqCase{Steps: steps}
